@@ -70,6 +70,21 @@ fn check(text: &str) -> Result<Option<usize>, String> {
             return Err(format!("functions #{} and #{} have the same display name {:?} (hence the same linker symbol)", j, i, name));
         }
     }
+    // native functions are linked by mangle_name(native_function_path(..)) (dora-compiler/src/native_lookup.rs): unique, valid characters
+    let mut natives: HashMap<String, usize> = HashMap::new();
+    for i in 0..prog.functions.len() {
+        if !prog.functions[i].is_native { continue; }
+        let sym = match std::panic::catch_unwind(std::panic::AssertUnwindSafe(|| dora_compiler::native_function_symbol(&prog, FunctionId::from(i)))) {
+            Ok(s) => s,
+            Err(_) => return Err(format!("native_function_symbol panics for native function #{} ({:?})", i, prog.functions[i].name)),
+        };
+        if !sym.starts_with("dora_") || !sym.bytes().all(|b| b.is_ascii_alphanumeric() || b == b'_') {
+            return Err(format!("native function #{} gets the symbol {:?}: not `dora_` + [A-Za-z0-9_]*", i, sym));
+        }
+        if let Some(j) = natives.insert(sym.clone(), i) {
+            return Err(format!("native functions #{} and #{} get the same linker symbol {:?}", j, i, sym));
+        }
+    }
     Ok(Some(prog.functions.len()))
 }
 
